@@ -173,4 +173,105 @@ example : let a : Arr Nat := .node [.node [.leaf 1, .leaf 2, .leaf 3], .node [.l
   refine ⟨?_, by decide, by decide⟩
   simp [HasAxis]
 
+/-! ## windows and cuts -/
+
+/-- the per-axis index lists of a window `[lo, lo + n)` on axis `k`, everything on the other axes -/
+def windowSels : List Nat → Nat → Nat → Nat → List (List Nat)
+  | [], _, _, _ => []
+  | _ :: rest, 0, lo, n => List.range' lo n :: rest.map List.range
+  | m :: rest, k + 1, lo, n => List.range m :: windowSels rest k lo n
+
+theorem pick_range' (xs : List (Arr α)) (lo n : Nat) (h : lo + n ≤ xs.length) :
+    pick (List.range' lo n) xs = (xs.drop lo).take n := by
+  apply List.ext_getElem?
+  intro j
+  rw [pick_getElem? _ _ (by intro i hi; simp only [List.mem_range'_1] at hi; omega)]
+  by_cases hj : j < n
+  · rw [List.getElem?_range' hj]
+    simp only [Option.bind_some]
+    rw [List.getElem?_take_of_lt hj, List.getElem?_drop]
+    simp
+  · rw [List.getElem?_eq_none (by simpa using (Nat.le_of_not_lt hj))]
+    simp only [Option.bind_none]
+    rw [List.getElem?_eq_none]
+    simp only [List.length_take, List.length_drop]
+    omega
+
+
+theorem hasShape_of_mem (sh : List Nat) : ∀ (xs : List (Arr α)), hasShapeL sh xs = true → ∀ x ∈ xs, hasShape sh x = true
+  | [], _, x, hx => by cases hx
+  | y :: ys, h, x, hx => by
+    simp only [hasShapeL, Bool.and_eq_true] at h
+    rcases List.mem_cons.mp hx with rfl | hx'
+    · exact h.1
+    · exact hasShape_of_mem sh ys h.2 x hx'
+
+/-- **a window is a cut**: the orthogonal selection of a contiguous range on one axis (and everything on the others) is
+the array cut to that range along the axis -/
+theorem orth_window : ∀ (sh : List Nat) (k : Nat) (a : Arr α) (lo n : Nat), hasShape sh a = true → k < sh.length →
+    lo + n ≤ sh.getD k 0 → orth (windowSels sh k lo n) a = atAxis (fun xs => (xs.drop lo).take n) k a
+  | [], _, _, _, _, _, hk, _ => by simp at hk
+  | m :: rest, _, .leaf _, _, _, h, _, _ => by simp [hasShape] at h
+  | m :: rest, 0, .node xs, lo, n, h, _, hb => by
+    simp only [hasShape, Bool.and_eq_true, beq_iff_eq] at h
+    obtain ⟨hl, hr⟩ := h
+    simp only [List.getD_cons_zero] at hb
+    simp only [windowSels, orth, atAxis]
+    rw [pick_range' xs lo n (by omega)]
+    congr 1
+    apply orth_full_idL rest
+    apply hasShapeL_of_forall
+    intro x hx
+    exact hasShape_of_mem rest xs hr x (List.mem_of_mem_drop (List.mem_of_mem_take hx))
+  | m :: rest, k + 1, .node xs, lo, n, h, hk, hb => by
+    simp only [hasShape, Bool.and_eq_true, beq_iff_eq] at h
+    obtain ⟨hl, hr⟩ := h
+    simp only [windowSels, orth, atAxis, atAxisL_eq_map]
+    rw [← hl, pick_range xs]
+    congr 1
+    apply List.map_congr_left
+    intro x hx
+    exact orth_window rest k x lo n (hasShape_of_mem rest xs hr x hx) (by simpa using hk) (by simpa using hb)
+
+
+/-- two cuts along an axis that together give back the list at that axis give back the array -/
+theorem concat_atAxis (f g : List (Arr α) → List (Arr α)) : ∀ (sh : List Nat) (k : Nat) (a : Arr α),
+    hasShape sh a = true → k < sh.length → (∀ xs : List (Arr α), xs.length = sh.getD k 0 → f xs ++ g xs = xs) →
+    concat k (atAxis f k a) (atAxis g k a) = a
+  | [], _, _, _, hk, _ => by simp at hk
+  | m :: rest, _, .leaf _, h, _, _ => by simp [hasShape] at h
+  | m :: rest, 0, .node xs, h, _, hfg => by
+    simp only [hasShape, Bool.and_eq_true, beq_iff_eq] at h
+    simp only [atAxis, concat]
+    rw [hfg xs (by simpa using h.1)]
+  | m :: rest, k + 1, .node xs, h, hk, hfg => by
+    simp only [hasShape, Bool.and_eq_true, beq_iff_eq] at h
+    have hr := h.2
+    clear h
+    simp only [atAxis, concat]
+    congr 1
+    have hall : ∀ x ∈ xs, concat k (atAxis f k x) (atAxis g k x) = x := fun x hx =>
+      concat_atAxis f g rest k x (hasShape_of_mem rest xs hr x hx) (by simpa using hk) (by simpa using hfg)
+    clear hr
+    induction xs with
+    | nil => rfl
+    | cons x xs ih =>
+      simp only [atAxisL, concatL]
+      rw [hall x (by simp), ih (fun y hy => hall y (by simp [hy]))]
+
+/-- **split and stack, on one array**: the windows `[0, c)` and `[c, m)` along axis `k` of an array whose axis `k` has
+length `m`, concatenated along `k`, are the array -/
+theorem concat_windows (sh : List Nat) (k : Nat) (a : Arr α) (c : Nat) (hs : hasShape sh a = true) (hk : k < sh.length)
+    (hc : c ≤ sh.getD k 0) :
+    concat k (orth (windowSels sh k 0 c) a) (orth (windowSels sh k c (sh.getD k 0 - c)) a) = a := by
+  rw [orth_window sh k a 0 c hs hk (by omega), orth_window sh k a c (sh.getD k 0 - c) hs hk (by omega)]
+  apply concat_atAxis _ _ sh k a hs hk
+  intro xs hxs
+  simp only [List.drop_zero]
+  have : (xs.drop c).take (sh.getD k 0 - c) = xs.drop c := by
+    apply List.take_of_length_le
+    simp only [List.length_drop]
+    omega
+  rw [this, List.take_append_drop]
+
 end Props.C04
